@@ -201,6 +201,86 @@ def argopt_final_pick(fn: ast.FunctionDef):
     return None
 
 
+def expand_locals(fn: ast.FunctionDef, e: ast.expr, before: int, depth: int = 5) -> ast.expr:
+    """e with every local name replaced by the value of its latest plain assignment (name = expr, at function level, not in a
+    nested def) that precedes line `before` - applied repeatedly: the expression in terms of attributes, parameters and
+    calls only.  A name whose latest assignment is not of that form (tuple target, augmented, loop variable) stays."""
+    from ..model import walk_no_nested
+
+    defs = {}
+    for s_ in walk_no_nested(fn):
+        if isinstance(s_, ast.Assign) and len(s_.targets) == 1 and isinstance(s_.targets[0], ast.Name):
+            defs.setdefault(s_.targets[0].id, []).append(s_)
+    other = {}
+    for s_ in walk_no_nested(fn):
+        for t in ast.walk(s_) if isinstance(s_, (ast.AugAssign, ast.For, ast.With)) else ():
+            if isinstance(t, ast.Name) and isinstance(t.ctx, ast.Store):
+                other.setdefault(t.id, []).append(s_.lineno)
+
+    def latest(name, line):
+        c = [d for d in defs.get(name, []) if d.lineno < line]
+        if not c:
+            return None
+        d = max(c, key=lambda d_: d_.lineno)
+        if any(d.lineno < l_ < line for l_ in other.get(name, [])):
+            return None
+        return d
+
+    import copy as _copy
+
+    def go(x, line, k):
+        if k <= 0:
+            return x
+
+        class R(ast.NodeTransformer):
+            def visit_Name(self, n):
+                if isinstance(n.ctx, ast.Load):
+                    d = latest(n.id, line)
+                    if d is not None and not any(isinstance(y, ast.Name) and y.id == n.id for y in ast.walk(d.value)):
+                        return go(_copy.deepcopy(d.value), d.lineno, k - 1)
+                return n
+
+            def visit_Lambda(self, n):
+                return n
+
+        return R().visit(x)
+
+    return go(_copy.deepcopy(e), before, depth)
+
+
+def dict_argopt(fn: ast.FunctionDef, dchain: str):
+    """the statement that picks a KEY of the dictionary `dchain` by the minimum / maximum of its VALUES, however it is spelled:
+         vals = list(D.values()); keys = list(D.keys()); m = min(vals); i = vals.index(m); k = keys[i]      (also in one line)
+         k = min(D, key=D.get)        k = min(D.keys(), key=lambda x: D[x])
+    -> dict(node, target, func, keys_src, index_src, opt_src) with the three sources as expanded text (all should be D's), or None"""
+    from ..model import walk_no_nested
+
+    best = None
+    for s_ in sorted((x for x in walk_no_nested(fn) if isinstance(x, ast.Assign) and len(x.targets) == 1 and isinstance(x.targets[0], ast.Name)), key=lambda x: x.lineno):
+        ex = expand_locals(fn, s_.value, s_.lineno + 1)
+        rec = None
+        if isinstance(ex, ast.Subscript) and isinstance(ex.slice, ast.Call) and isinstance(ex.slice.func, ast.Attribute) and ex.slice.func.attr == "index" and len(ex.slice.args) == 1:
+            inner = ex.slice.args[0]
+            if isinstance(inner, ast.Call) and attr_chain(inner.func) in ("min", "max") and len(inner.args) == 1 and not inner.keywords:
+                rec = {"func": attr_chain(inner.func), "keys_src": ast.unparse(ex.value), "index_src": ast.unparse(ex.slice.func.value), "opt_src": ast.unparse(inner.args[0])}
+        elif isinstance(ex, ast.Call) and attr_chain(ex.func) in ("min", "max") and len(ex.args) == 1 and [k.arg for k in ex.keywords] == ["key"]:
+            src, key = ast.unparse(ex.args[0]), ex.keywords[0].value
+            ktxt = ast.unparse(key)
+            vs = None
+            if ktxt.endswith(".get"):
+                vs = ktxt[:-4]
+            elif isinstance(key, ast.Lambda) and len(key.args.args) == 1 and isinstance(key.body, ast.Subscript) and ast.unparse(key.body.slice) == key.args.args[0].arg:
+                vs = ast.unparse(key.body.value)
+            if vs is not None:
+                ks = src[:-7] if src.endswith(".keys()") else (src[5:-8] if src.startswith("list(") and src.endswith(".keys())") else src)
+                rec = {"func": attr_chain(ex.func), "keys_src": f"list({ks}.keys())", "index_src": f"list({vs}.values())", "opt_src": f"list({vs}.values())"}
+        if rec is not None and any(dchain in rec[k] for k in ("keys_src", "index_src", "opt_src")):
+            rec.update(node=s_, target=s_.targets[0].id)
+            best = rec
+            break
+    return best
+
+
 # ---------------------------------------------------------------------------
 # RowWise search: the local names that carry the selection, derived from the code (no local name is assumed)
 # ---------------------------------------------------------------------------
